@@ -668,8 +668,8 @@ def r_extreme(ctx, view, Q, only=None):
             # empty queue -> None: guarded by len()==0 / size==0 / find_* / heap.first()
             ok2, why2 = none_on_empty(view, Q, f)
             ctx.ob("R-EXTREME", "%s::%s:none-on-empty" % (QNAME[Q], nm), ok2, f.loc(), why2)
-    if Q == DPQ and not only:
-        r_findmax(ctx, view)
+    if Q == DPQ:
+        r_findmax(ctx, view)   # find_min / find_max themselves: the table of returned positions by length
 
 
 def none_on_empty(view, Q, f):
@@ -753,10 +753,64 @@ def r_findmax(ctx, view):
                 if cond_holds(cond, n):
                     vals.add(render_return(val))
             table[n] = sorted(vals)
+            if want[n] == "Some(max{1,2})" and vals == {"Some(1)", "Some(2)"}:
+                # the explicit form: one comparison of the two children's priorities decides which is returned
+                why = explicit_max(facts, n)
+                if why is None:
+                    table[n] = ["Some(max{1,2}) by an explicit comparison"]
+                    continue
+                bad.append("len %d -> %s" % (n, why))
+                continue
             if vals != {want[n]}:
                 bad.append("len %d -> %s (expected %s)" % (n, sorted(vals), want[n]))
         ctx.ob("R-EXTREME", "DoublePriorityQueue::%s:arms" % name, not bad, f.loc(),
                "%s by length: %s" % (name, table) if not bad else "; ".join(bad))
+
+
+def explicit_max(facts, n):
+    """RETURN Some(1) / Some(2) facts at length n: None if child a is returned exactly when its priority is greater (or
+    not smaller) than the other's, else a description of what is wrong"""
+    P = {1: None, 2: None}
+    got = {}
+    for x in facts:
+        val, cond = x[len("RETURN "):].split("  WHEN ", 1)
+        if not cond_holds(cond, n):
+            continue
+        r = render_return(val)
+        if r not in ("Some(1)", "Some(2)"):
+            continue
+        lits = [l for l in cond.split(" & ") if "plt(" in l]
+        got.setdefault(int(r[5]), []).append(lits)
+    if set(got) != {1, 2} or any(len(v) != 1 or len(v[0]) != 1 for v in got.values()):
+        return "the two children are not chosen by exactly one priority comparison (%s)" % got
+    def parse(l):
+        neg = l.startswith("!")
+        body = l[1:] if neg else l
+        m = re.match(r"^plt\((.*)\)$", body)
+        if not m:
+            return None
+        from .rules_sift import split_top
+        a, b = split_top(m.group(1))
+        def child(t):
+            mm = re.search(r"get_priority_from_position\(P1\.store,Position::Position\((\d)_usize\)\)$", t)
+            return int(mm.group(1)) if mm else None
+        return neg, child(a), child(b)
+    p1, p2 = parse(got[1][0][0]), parse(got[2][0][0])
+    if not p1 or not p2 or None in p1[1:] or None in p2[1:]:
+        return "the comparison is not between the priorities of positions 1 and 2 (%s | %s)" % (got[1][0][0], got[2][0][0])
+    # meaning of (neg, a, b): prio(a) < prio(b) [neg False] / prio(a) >= prio(b) [neg True]
+    def says_not_smaller(p, who):
+        neg, a, b = p
+        other = 3 - who
+        if not neg and (a, b) == (other, who):
+            return True    # other < who
+        if neg and (a, b) == (who, other):
+            return True    # !(who < other)
+        return False
+    ok1, ok2 = says_not_smaller(p1, 1), says_not_smaller(p2, 2)
+    if ok1 and ok2 and (p1[0] != p2[0]) and {p1[1], p1[2]} == {1, 2}:
+        return None
+    return "child 1 is returned when %s, child 2 when %s: not the greater of the two" % (got[1][0][0], got[2][0][0])
 
 
 def cond_holds(cond, n):
